@@ -773,9 +773,27 @@ class SchedSim(object):
                 tags['exclusive'] = True
         if tags:
             d['tags'] = tags
+        if spec.get('old_names'):
+            # the documented deprecated attribute names (examples still use them)
+            ALIAS = {'ranks': 'cpu_processes', 'cores_per_rank': 'cpu_threads',
+                     'gpus_per_rank': 'gpu_processes', 'lfs_per_rank': 'lfs_per_process',
+                     'mem_per_rank': 'mem_per_process'}
+            for new, old in ALIAS.items():
+                if new in d and d[new] and d[new] > 0 and \
+                        not (new == 'gpus_per_rank' and d[new] != int(d[new])):
+                    d[old] = d.pop(new)
+            self.labels.add('deprecated_attribute_names')
         td = rp.TaskDescription(d)
         td.verify()
         tdd = td.as_dict()
+        if spec.get('old_names'):
+            # what is placed is what was asked for, under whatever name
+            for k in ('ranks', 'cores_per_rank', 'gpus_per_rank', 'lfs_per_rank', 'mem_per_rank'):
+                if spec.get(k) is not None and tdd.get(k) != spec[k] and \
+                        not (k == 'ranks' and spec[k] <= 0):
+                    self.bad('C02', 'request_lost_in_description:%s' % k,
+                             '%s: asked for %s=%r under its deprecated name, the verified description '
+                             'says %r' % (uid, k, spec[k], tdd.get(k)))
         task = {'uid': uid, 'type': 'task', 'name': uid,
                 'state': rps.AGENT_SCHEDULING_PENDING,
                 'description': tdd, 'pilot': 'pilot.0000',
